@@ -57,6 +57,11 @@ func epsFor(c *Case) (cl, sv scen.EP) {
 		cl.Curves, sv.Curves = []uint16{0x1d, 0x17}, []uint16{0x1d, 0x17}
 	}
 	cl.IntervalMs, sv.IntervalMs = c.IvlMs, c.IvlMs
+	if c.Ver == 12 {
+		// the two extensions the server DOES compare between the first and the second hello
+		cl.CID, sv.CID = 4, 4
+		cl.SRTP, sv.SRTP = []uint16{1, 2}, []uint16{1, 2}
+	}
 	if c.KnownID {
 		cl.Store, sv.Store = "cs", "ss"
 	}
@@ -71,6 +76,9 @@ func epsFor(c *Case) (cl, sv scen.EP) {
 // emission classification of one server datagram
 func classify(d []byte) (kinds []string) {
 	recs, ok := scen.SplitDatagram(d, 0)
+	if !ok {
+		recs, ok = scen.SplitDatagram(d, 4) // records towards the DTLS 1.2 client carry its 4-byte connection ID
+	}
 	if !ok {
 		return []string{"unparseable"}
 	}
@@ -199,9 +207,27 @@ func alter(ch *scen.ClientHello, how string) (*scen.ClientHello, bool) {
 		out.SID[len(out.SID)/2] ^= 0x21
 	case "compression":
 		out.Comp = append(append([]byte(nil), ch.Comp...), 1)
-	case "ext-byte":
+	case "cid-ext", "srtp-ext":
+		// a change inside connection_id (54) / use_srtp (14): these two the server compares
+		want := uint16(54)
+		if how == "srtp-ext" {
+			want = 14
+		}
 		for i, e := range out.Exts {
-			if len(e.Data) > 0 && e.Type != 44 {
+			if e.Type == want && len(e.Data) > 0 {
+				d := append([]byte(nil), e.Data...)
+				d[len(d)-1] ^= 0x01
+				out.Exts[i] = scen.Ext{Type: e.Type, Data: d}
+
+				return &out, true
+			}
+		}
+
+		return &out, false
+	case "ext-byte":
+		// (one of the extensions the server does not compare)
+		for i, e := range out.Exts {
+			if len(e.Data) > 0 && e.Type != 44 && e.Type != 54 && e.Type != 14 {
 				d := append([]byte(nil), e.Data...)
 				d[len(d)-1] ^= 0x01
 				out.Exts[i] = scen.Ext{Type: e.Type, Data: d}
@@ -213,7 +239,7 @@ func alter(ch *scen.ClientHello, how string) (*scen.ClientHello, bool) {
 		return &out, false
 	case "ext-drop":
 		for i, e := range out.Exts {
-			if e.Type != 44 && e.Type != 43 && e.Type != 51 && e.Type != 10 {
+			if e.Type != 44 && e.Type != 43 && e.Type != 51 && e.Type != 10 && e.Type != 54 && e.Type != 14 {
 				out.Exts = append(out.Exts[:i:i], out.Exts[i+1:]...)
 
 				return &out, true
@@ -589,7 +615,7 @@ func run(c Case, r *pbt.R) {
 
 var (
 	cookies = []string{"absent", "right", "wrongbyte", "truncated", "extended", "stale", "empty"}
-	alters  = []string{"none", "random", "suites-drop", "suites-swap", "sid", "sid-content", "compression", "ext-byte", "ext-drop", "ext-add", "version"}
+	alters  = []string{"none", "random", "suites-drop", "suites-swap", "sid", "sid-content", "compression", "ext-byte", "ext-drop", "ext-add", "version", "cid-ext", "srtp-ext"}
 )
 
 func gen(t *rapid.T) Case {
